@@ -224,14 +224,31 @@ def f18_signature(run, rr):
     return reader_cancelled - len(partial) == int(end[0][6])
 
 
+def mon_c08_outside_f41(run, world):
+    """known finding F41 (see known_findings.json): worlds in which a policy or a loader hands the simulator time values that
+    are not expressed in microseconds are judged by the F41 replay only"""
+    import simgen
+    if "non_us_times" in simgen.signature(world):
+        return []
+    return mon_c08(run, world)
+
+
 def run(ctx):
-    worlds, runs = simcheck.run_sim_property(ctx, ["C08"], mon_c08,
+    worlds, runs = simcheck.run_sim_property(ctx, ["C08"], mon_c08_outside_f41,
                                              "a row of the CSV trace or the end-of-run summary disagrees with what happened in the run")
     # ---- the project's own reader must accept every trace and reconstruct the run
     import simgen
     # closed-loop worlds: the reader is known to reject them (F9), replayed separately below
     idx = [i for i, r in enumerate(runs) if r["status"] == "ended" and r["rows"]
-           and "closed_loop" not in simgen.signature(worlds[i])]
+           and not ({"closed_loop", "non_us_times"} & simgen.signature(worlds[i]))]
+    ctx.cov.setdefault("input_distribution", {})["worlds_matching_known_finding_F41"] = \
+        sum(1 for w in worlds if "non_us_times" in simgen.signature(w))
+    for k in core.load_known():
+        if k.get("status") == "known" and k.get("property") == "C08" and k.get("id") == "F41":
+            w = json.load(open(os.path.join(core.ROOT, k["witness"])))
+            r = simcommon.run_worlds([w], jobs=1, chunk=1)[0]
+            if r["status"] == "ended" and mon_c08(r, w):
+                ctx.known("F41", k["what_fails"])
     res = core.run_impl("csvread.py", {"traces": [runs[i]["rows"] for i in idx]}, timeout=600)["results"]
     rejected = 0
     recon_bad = 0
